@@ -18,6 +18,7 @@ def main():
     a = ap.parse_args()
     seed = int(os.environ.get("VERIF_SEED", "0") or 0)
     pid = a.pid.upper()
+    os.environ["VERIF_TIER"] = a.tier
     try:
         mod = importlib.import_module("props." + pid.lower())
     except ModuleNotFoundError:
